@@ -14,6 +14,7 @@ package aml
 import (
 	"bytes"
 	"fmt"
+	"io"
 	"sort"
 	"strings"
 	"testing"
@@ -471,6 +472,18 @@ func c11Run(c c11Case) (fail *vlib.Failure, errLog string) {
 		}
 	}
 	_ = keep
+
+	// a well-formed program must also leave a well-formed tree whose byte slices
+	// point into the tables (same post-conditions as C12)
+	if d := c12TreeInvariants(tree); d != "" {
+		return vlib.Failf("after parsing a well-formed program the tree is no longer well-formed: %s", d), ""
+	}
+	if d := c12StraySlices(tree, keep); d != "" {
+		return vlib.Failf("after parsing a well-formed program: %s", d), ""
+	}
+	if pc := vlib.Catch(func() { tree.PrettyPrint(io.Discard) }); pc.Panicked {
+		return vlib.Failf("the tree of a well-formed program cannot be printed: %v", pc), ""
+	}
 
 	expect := map[string]c11Expect{}
 	for _, objs := range c.Tables {
